@@ -315,7 +315,9 @@ class Hedger(Module):
             # This maintains consistency with the previous implementations.
             # In previous implementation for loop is computed for 0...T-2 and
             # the last time step is not included.
-            output[..., -1, :] = output[..., -2, :]
+            # (Out of place: an in-place write would invalidate the output saved
+            # for backward by an output activation such as ReLU, Tanh or Sigmoid.)
+            output = torch.cat((output[..., :-1, :], output[..., [-2], :]), dim=-2)
 
         output = output.transpose(-1, -2)  # (N, H, T)
 
